@@ -484,6 +484,10 @@ func (r *Resolver) resolve(ctx context.Context, rs *resolveState) (*dns.Msg, err
 			// any other denial, so it goes through the same validation.
 			return r.authority(ctx, rs.req, resp, rs.parentDS, rs.servers.Zone)
 		}
+		// An error reply has no answer and no authority, but it can still
+		// carry an additional section, and the servers that sent it speak
+		// for their zone there too.
+		resp.Extra = recordsInZoneAndOPT(resp.Extra, rs.servers.Zone)
 		return resp, nil
 	}
 
